@@ -140,3 +140,13 @@ Theorem C01_current_is_the_last_write : forall c ops, hist_ok ops ->
   forall x, In x (w_recs (fst (run_ops c ops))) -> last_opt (filter (by_run (r_run x)) (w_hist (fst (run_ops c ops)))) = Some x.
 Proof. exact current_is_last_write. Qed.
 Print Assumptions C01_current_is_the_last_write.
+
+(* non-vacuity: the example history (faults, a crash, pause / resume, a timeout, data deletion; hist_ok) has effective writes of all
+   three kinds — status-changing, data-deletion rewrite, run-state change only *)
+From WF Require Import proofs.Examples.
+Theorem C01_every_write_nonvacuous : hist_ok ex_ops /\
+  (2 <= count_kind (fun p r => negb (Z.eqb (r_status r) (r_status p))) (trace_of ex_cfg ex_ops))%nat /\
+  (1 <= count_kind (fun p r => rs_eqb (r_state r) RSDataDeleted) (trace_of ex_cfg ex_ops))%nat /\
+  (2 <= count_kind (fun p r => Z.eqb (r_status r) (r_status p) && obj_eqb (r_obj r) (r_obj p) && negb (rs_eqb (r_state r) RSDataDeleted)) (trace_of ex_cfg ex_ops))%nat.
+Proof. exact (conj ex_hist_ok ex_write_kinds). Qed.
+Print Assumptions C01_every_write_nonvacuous.
